@@ -516,6 +516,8 @@ type c15sys struct {
 
 // run replays a history on a fresh node and a fresh model. It returns the observations of
 // the LAST op (got, want), the final node and model, and whether the history is applicable.
+var c15lazyBefore bool // whether the target of the last op was lazy/raw when the op started
+
 func (s *c15sys) run(d *c15doc, hist []int) (got, want string, root *ast.Node, m *mnode, ok bool) {
 	n := ast.NewRaw(d.text)
 	root = &n
@@ -535,6 +537,7 @@ func (s *c15sys) run(d *c15doc, hist []int) (got, want string, root *ast.Node, m
 		if want == "!" {
 			return "", "", root, m, false // effect unspecified by the documentation: pruned
 		}
+		c15lazyBefore = ast.VerifIsLazy(nt)
 		got = o.impl(nt)
 	}
 	return
@@ -565,6 +568,11 @@ func c15key(s *c15sys, d *c15doc, hist []int, what, got, want string) string {
 	}
 	// the key names the kind of failure: which operation kind observed it, on which document
 	// family, and how the observation class differs; the history itself is in the replay file
+	if what == "probe" && last.kind == "Iterate" && cls(got) == "json-error" {
+		// one class whatever the document: reading the by-value copies handed out by
+		// Values()/Properties() iterators exhausts the lazy children's shared parser state
+		return "probe:Iterate want=json got=json-error"
+	}
 	return fmt.Sprintf("%s:%s doc=%s want=%s got=%s", what, last.kind, d.name, cls(want), cls(got))
 }
 
@@ -586,10 +594,20 @@ func init() {
 		if len(hist) > 0 && want != "?" && got != want {
 			// Len on a partially loaded node is documented to count parsed children only
 			what := "return"
-			if sys.ops[hist[len(hist)-1]].kind == "Len" {
-				what = "return(Len-on-lazy-node)"
+			key := ""
+			var gl, wl int
+			if sys.ops[hist[len(hist)-1]].kind == "Len" && c15lazyBefore {
+				if n1, _ := fmt.Sscanf(got, "len:%d", &gl); n1 == 1 {
+					if n2, _ := fmt.Sscanf(want, "len:%d", &wl); n2 == 1 && gl < wl {
+						// documented WARN: only the children parsed so far are counted
+						key = "return:Len on a partially loaded (lazy) node counts fewer children than it has"
+					}
+				}
 			}
-			return &ev.Violation{Property: "C15", Key: c15key(sys, d, hist, what, got, want),
+			if key == "" {
+				key = c15key(sys, d, hist, what, got, want)
+			}
+			return &ev.Violation{Property: "C15", Key: key,
 				What: "operation result differs from the ordered-tree model", Case: ev.J(c15case{d.name, names(hist)}),
 				Expected: want, Observed: got}, "", true
 		}
